@@ -4,6 +4,7 @@ import (
 	"encoding/json"
 	"strings"
 	"time"
+	"unicode"
 
 	"github.com/shopspring/decimal"
 )
@@ -11,8 +12,9 @@ import (
 // An independent reference evaluator for the small query language of gen's query pool (numbers, dates by calendar day,
 // presence, text equality / containment, URN values with any/all semantics, tickets, AND/OR/parentheses). It works on the
 // contact's JSON, not through contactql, so that C06 does not have to trust the library's evaluator for these forms
-// (a seeded change to the evaluator itself is otherwise invisible to an oracle that calls it). Forms it does not model
-// (name ~, location fields) make the whole query "unknown" and are left to the library oracle alone.
+// (a seeded change to the evaluator itself is otherwise invisible to an oracle that calls it). name ~ is modelled for
+// names and values made of plain words, location fields by the name of the location of the field's own level; anything
+// it does not model makes the whole query "unknown" and is left to the library oracle alone.
 
 type refQ struct {
 	op       string // "and" | "or" | "" (leaf)
@@ -151,6 +153,17 @@ func urnParts(u string) (scheme, path string) {
 var refNumberFields = map[string]bool{"age": true}
 var refTextFields = map[string]bool{"gender": true, "nick": true}
 var refDateFields = map[string]bool{"joined": true}
+var refLocationFields = map[string]bool{"state": true, "district": true, "ward": true}
+
+// refPlainWords: text made of letters, digits, marks and spaces only — where "words" means the same to everybody.
+func refPlainWords(s string) bool {
+	for _, r := range s {
+		if !unicode.IsLetter(r) && !unicode.IsNumber(r) && !unicode.IsMark(r) && r != ' ' {
+			return false
+		}
+	}
+	return true
+}
 var refSchemes = map[string]bool{"tel": true, "twitter": true, "twitterid": true, "mailto": true, "facebook": true}
 
 // eval returns (result, known).
@@ -299,7 +312,40 @@ func (q *refQ) eval(c *refContact, tz *time.Location) (bool, bool) {
 		return textCmp([]string{c.Language})
 	case q.prop == "name":
 		if q.cmp == "~" {
-			return false, false // tokenized prefix match: not modelled
+			// the documented meaning: the name and the queried text are split into words, words of fewer than 2 characters are
+			// not used, and a word of the name matches a queried word when it starts with the first 8 characters of it
+			words := func(s string) []string {
+				var out []string
+				for _, w := range strings.FieldsFunc(strings.ToLower(s), func(r rune) bool { return !unicode.IsLetter(r) && !unicode.IsNumber(r) && !unicode.IsMark(r) }) {
+					rs := []rune(w)
+					if len(rs) < 2 {
+						if len(w) >= 2 {
+							return nil // one character of several bytes: the library counts bytes here, the documentation characters
+						}
+						continue
+					}
+					if len(rs) > 8 {
+						rs = rs[:8]
+					}
+					out = append(out, string(rs))
+				}
+				return out
+			}
+			if !refPlainWords(c.Name) || !refPlainWords(q.value) {
+				return false, false
+			}
+			nw, qw := words(c.Name), words(q.value)
+			if qw == nil {
+				return false, false
+			}
+			for _, n := range nw {
+				for _, w := range qw {
+					if strings.HasPrefix(n, w) {
+						return true, true
+					}
+				}
+			}
+			return false, true
 		}
 		if c.Name == "" {
 			return textCmp(nil)
@@ -350,6 +396,18 @@ func (q *refQ) eval(c *refContact, tz *time.Location) (bool, bool) {
 			return textCmp(nil)
 		}
 		return textCmp([]string{t})
+	case refLocationFields[q.prop]:
+		// a location field is queried by the name of the location of its own level (the last step of that level's path)
+		f := c.Fields[q.prop]
+		if f == nil {
+			return textCmp(nil)
+		}
+		path, _ := f[q.prop].(string) // the field keys of the pool are the names of their types
+		if path == "" {
+			return textCmp(nil)
+		}
+		steps := strings.Split(path, ">")
+		return textCmp([]string{strings.TrimSpace(steps[len(steps)-1])})
 	case refDateFields[q.prop]:
 		f := c.Fields[q.prop]
 		if f == nil || f["datetime"] == nil {
